@@ -170,11 +170,21 @@ func runCheck(prop, tier, only string, verbose bool) int {
 	}
 	// tasks
 	var runs []*taskRun
+	var notCompiled []string
 	for _, s := range specs {
 		if only != "" && !strings.Contains(s.Harness, only) {
 			continue
 		}
 		if pkg.Func(s.Harness) == nil {
+			if msg, ok := droppedDecls[s.Harness]; ok {
+				// the harness (or something it uses) does not compile against this tree: the other tasks still run
+				notCompiled = append(notCompiled, fmt.Sprintf("%s does not compile against this tree (%s)", s.Harness, msg))
+				continue
+			}
+			if len(droppedDecls) > 0 {
+				notCompiled = append(notCompiled, fmt.Sprintf("%s was removed with a declaration it depends on (%v)", s.Harness, droppedNames()))
+				continue
+			}
 			fmt.Println("INCONCLUSIVE: harness not found:", s.Harness)
 			return 2
 		}
@@ -192,6 +202,7 @@ func runCheck(prop, tier, only string, verbose bool) int {
 	agg := &TaskResult{EndKinds: map[string]int64{}, Reached: map[string]int64{}, Funcs: map[string]int64{}}
 	var allV []Violation
 	var inconclusive []string
+	inconclusive = append(inconclusive, notCompiled...)
 	var witnesses []Violation
 	harnesses := map[string]bool{}
 	for _, r := range runs {
@@ -534,4 +545,13 @@ func writeEvidence(prop, tier string, seed int64, spec PropSpec, agg *TaskResult
 	}
 	os.MkdirAll(evDir, 0o755)
 	os.WriteFile(filepath.Join(evDir, prop+".json"), b, 0o644)
+}
+
+func droppedNames() []string {
+	var out []string
+	for k := range droppedDecls {
+		out = append(out, k)
+	}
+	sort.Strings(out)
+	return out
 }
